@@ -426,6 +426,13 @@ impl DrawExecutor {
             std::mem::swap(&mut x0, &mut x1);
         }
 
+        // only the part inside the screen can be drawn: keeps the work bounded by the canvas, not by the coordinates
+        let res = self.get_resolution();
+        x0 = x0.max(0);
+        y0 = y0.max(0);
+        x1 = x1.min(res.width - 1);
+        y1 = y1.min(res.height - 1);
+
         for y in y0..=y1 {
             for x in x0..=x1 {
                 self.fill_pixel(x, y);
